@@ -22,14 +22,15 @@ Entry(o) == IF Refused(o) THEN o.msg
 RefReply(outcomes) == [i \in 1..Len(outcomes) |-> Entry(outcomes[i])]
 
 (* Implementation-shaped reply: one message queue per request; a refused command  *)
-(* reports its error text and leaves whatever it pushed in the queue; a successful *)
-(* command pushes its lines and then reports the *head* of the queue (or "empty"). *)
+(* reports its error text and discards whatever is queued (repaired code: before,  *)
+(* the pushed line stayed queued); a successful command pushes its lines and then   *)
+(* reports the *head* of the queue (or "empty").                                   *)
 RECURSIVE ImplFrom(_, _, _)
 ImplFrom(outcomes, i, queue) ==
   IF i > Len(outcomes) THEN <<>>
   ELSE LET o == outcomes[i]
            q == queue \o o.lines
-       IN IF Refused(o) THEN <<o.msg>> \o ImplFrom(outcomes, i + 1, q)
+       IN IF Refused(o) THEN <<o.msg>> \o ImplFrom(outcomes, i + 1, <<>>)
           ELSE IF q = <<>> THEN <<"empty">> \o ImplFrom(outcomes, i + 1, q)
           ELSE <<Head(q)>> \o ImplFrom(outcomes, i + 1, Tail(q))
 
